@@ -381,6 +381,27 @@ def recv_fields(fb, fl, body, t, adt, memo):
             out.add(a[2])
         elif a[0] == "call" and a[1] in fb.mir and fb.mir[a[1]].get("self_ty") == adt:
             out |= getter_fields(fb, a[1], adt, 0, memo)
+        elif a[0] == "arg" and a[1] >= 2 and body.get("kind") == "Closure":
+            # the element handed to a closure by an iterator adaptor (for_each / map / ...): where does the iterator come from?
+            out |= closure_elem_fields(fb, body["def"], adt, memo)
+    return out
+
+
+def closure_elem_fields(fb, cdef, adt, memo):
+    """Fields of adt whose elements are fed to closure cdef by the iterator call in its parent that takes it."""
+    key = ("celem", cdef, adt)
+    if key in memo:
+        return memo[key]
+    memo[key] = set()
+    parent = cdef.rsplit("::{closure", 1)[0]
+    pb = fb.mir.get(parent)
+    out = set()
+    if pb:
+        pfl = Flow(fb, pb)
+        for bi, t in pfl.calls():
+            if len(t["args"]) >= 2 and any(x[0] == "cfn" and x[1] == cdef for a in t["args"][1:] for x in pfl.atoms(a)):
+                out |= recv_fields(fb, pfl, pb, t, adt, memo)
+    memo[key] = out
     return out
 
 
